@@ -3,6 +3,36 @@ from .runner import M
 MUT = "src/allmydata/storage/mutable.py"
 SRV = "src/allmydata/storage/server.py"
 SCH = "src/allmydata/storage/mutable_schema.py"
+HTTP = "src/allmydata/storage/http_server.py"
+HC = "src/allmydata/storage/http_client.py"
+SC = "src/allmydata/storage_client.py"
+
+HTTP_TRY = ("        try:\n"
+            "            success, read_data = self._storage_server.slot_testv_and_readv_and_writev(\n")
+HTTP_TW_ARG = ("                {\n"
+               "                    k: (\n"
+               "                        [\n"
+               "                            (d[\"offset\"], d[\"size\"], b\"eq\", d[\"specimen\"])\n"
+               "                            for d in v[\"test\"]\n"
+               "                        ],\n"
+               "                        [(d[\"offset\"], d[\"data\"]) for d in v[\"write\"]],\n"
+               "                        v[\"new-length\"],\n"
+               "                    )\n"
+               "                    for (k, v) in rtw_request[\"test-write-vectors\"].items()\n"
+               "                },\n")
+HTTP_TEST_ELT = "(d[\"offset\"], d[\"size\"], b\"eq\", d[\"specimen\"])"
+HTTP_RV_ARG = "                [(d[\"offset\"], d[\"size\"]) for d in rtw_request[\"read-vector\"]],\n"
+
+
+def http_tw_loop(size):
+    """The handler's test-and-write vectors built by statement loops instead of comprehensions."""
+    return ("        tw_vectors = {}\n"
+            "        for (k, v) in rtw_request[\"test-write-vectors\"].items():\n"
+            "            tests = []\n"
+            "            for d in v[\"test\"]:\n"
+            "                tests.append((d[\"offset\"], %s, b\"eq\", d[\"specimen\"]))\n"
+            "            writes = [(d[\"offset\"], d[\"data\"]) for d in v[\"write\"]]\n"
+            "            tw_vectors[k] = (tests, writes, v[\"new-length\"])\n" % size) + HTTP_TRY
 
 ZERO_BLOCK = ("            if offset > data_length:\n"
               "                f.seek(self.DATA_OFFSET+data_length)\n"
@@ -123,6 +153,52 @@ MUTANTS = [
     M("fit-assert-strict-with-not", MUT, "            assert self.DATA_OFFSET+offset+length <= extra_lease_offset\n",
       "            assert not self.DATA_OFFSET+offset+length >= extra_lease_offset\n", "C23.2"),
     M("operator-assert-inverted", MUT, "    assert op == b\"eq\"\n", "    assert op != b\"eq\"\n", "C23.7"),
+    # ---- C23.9 protocol front ends
+    M("http-test-length-clipped-to-specimen", HTTP, HTTP_TEST_ELT,
+      "(d[\"offset\"], min(d[\"size\"], len(d[\"specimen\"])), b\"eq\", d[\"specimen\"])", "C23.9",
+      note="seeded C23-D: (0, 1, b'') - 'the share must be empty' - becomes (0, 0, b''), which any share passes"),
+    M("http-test-length-from-specimen-in-loop", HTTP, HTTP_TW_ARG, "                tw_vectors,\n", "C23.9",
+      edits=[(HTTP, HTTP_TRY, http_tw_loop("len(d[\"specimen\"])"))],
+      note="same effect, different edit: the vectors are rebuilt by loops and the read length is taken from the specimen"),
+    M("http-empty-writes-dropped", HTTP, "[(d[\"offset\"], d[\"data\"]) for d in v[\"write\"]],",
+      "[(d[\"offset\"], d[\"data\"]) for d in v[\"write\"] if d[\"data\"]],", "C23.9",
+      note="an empty write past the end extends the share with zeros; dropping it changes the array"),
+    M("http-new-length-zero-becomes-none", HTTP, "                        v[\"new-length\"],\n",
+      "                        v[\"new-length\"] or None,\n", "C23.9", note="new_length 0 must delete the share"),
+    M("http-read-vector-end-for-length", HTTP, HTTP_RV_ARG,
+      "                [(d[\"offset\"], d[\"offset\"] + d[\"size\"]) for d in rtw_request[\"read-vector\"]],\n", "C23.9"),
+    M("http-answer-always-success", HTTP, "{\"success\": success, \"data\": read_data}", "{\"success\": True, \"data\": read_data}", "C23.9"),
+    M("http-chunk-end-for-length", HTTP, "storage_index, [share_number], [(offset, length)]\n",
+      "storage_index, [share_number], [(offset, offset + length)]\n", "C23.9"),
+    M("http-chunk-reads-first-share", HTTP, "                )[share_number][0]\n", "                )[0][0]\n", "C23.9"),
+    M("foolscap-readv-sorted", SRV, "        return self._server.slot_readv(storage_index, shares, readv)\n",
+      "        return self._server.slot_readv(storage_index, shares, sorted(readv))\n", "C23.9",
+      note="the answers come back in another order than the reads were asked in"),
+    M("foolscap-shares-without-writes-skipped", SRV, "            secrets,\n            test_and_write_vectors,\n            read_vector,\n            renew_leases=True,\n        )",
+      "            secrets,\n            {k: v for (k, v) in test_and_write_vectors.items() if v[1]},\n            read_vector,\n            renew_leases=True,\n        )",
+      "C23.9", note="a share that is only tested no longer takes part in the verdict"),
+    # ---- C23.10 the client half of the hops
+    M("http-adapter-test-length-clipped-to-specimen", SC, "TestVector(offset=offset, size=size, specimen=specimen)",
+      "TestVector(offset=offset, size=min(size, len(specimen)), specimen=specimen)", "C23.10",
+      note="the clip of seeded C23-D made one hop earlier"),
+    M("foolscap-adapter-test-length-clipped-to-specimen", SC, "[(start, length, b\"eq\", data) for (start, length, data) in value[0]],",
+      "[(start, min(length, len(data)), b\"eq\", data) for (start, length, data) in value[0]],", "C23.10"),
+    M("http-adapter-empty-writes-dropped", SC, "WriteVector(offset=offset, data=data) for (offset, data) in data_vector\n",
+      "WriteVector(offset=offset, data=data) for (offset, data) in data_vector if data\n", "C23.10"),
+    M("http-adapter-new-length-zero-becomes-none", SC, "                new_length=new_length\n", "                new_length=new_length or None\n", "C23.10"),
+    M("http-adapter-read-vector-fields-swapped", SC, "ReadVector(offset=offset, size=size)\n", "ReadVector(offset, offset + size)\n", "C23.10"),
+    M("foolscap-adapter-write-vector-sorted", SC, "                value[1],\n                value[2],\n", "                sorted(value[1]),\n                value[2],\n", "C23.10",
+      note="overlapping writes are applied in order; sorting them changes the resulting array"),
+    M("http-client-body-without-test-vectors", HC, "                share_number: twv.asdict()\n",
+      "                share_number: TestWriteVectors(write_vectors=twv.write_vectors, new_length=twv.new_length).asdict()\n",
+      "C23.10"),
+    M("http-client-body-first-read-only", HC, "\"read-vector\": [asdict(r) for r in read_vector],", "\"read-vector\": [asdict(r) for r in read_vector[:1]],", "C23.10"),
+    M("http-client-hop-drops-read-vector", HC, "                testwrite_vectors,\n                read_vector,\n            )\n",
+      "                testwrite_vectors,\n                [],\n            )\n", "C23.10"),
+    M("http-client-asdict-keys-crossed", HC, "        d[\"test\"] = d.pop(\"test_vectors\")\n        d[\"write\"] = d.pop(\"write_vectors\")\n",
+      "        d[\"write\"] = d.pop(\"test_vectors\")\n        d[\"test\"] = d.pop(\"write_vectors\")\n", "C23.10"),
+    M("http-client-test-vector-field-renamed", HC, "    offset: int\n    size: int\n    specimen: bytes\n", "    offset: int\n    length: int\n    specimen: bytes\n", "C23.10",
+      edits=[(SC, "TestVector(offset=offset, size=size, specimen=specimen)", "TestVector(offset=offset, length=size, specimen=specimen)")]),
     # ---- behaviour-preserving
     M("benign-gap-test-negated", MUT, "            if offset > data_length:\n", "            if not (offset <= data_length):\n", None),
     M("benign-hoisted-end", MUT, "        if offset+length >= data_length:", "        end = offset+length\n        if end >= data_length:", None),
@@ -161,7 +237,44 @@ MUTANTS = [
     M("benign-fit-assert-with-not", MUT, "            assert self.DATA_OFFSET+offset+length <= extra_lease_offset\n",
       "            assert not self.DATA_OFFSET+offset+length > extra_lease_offset\n", None),
     M("benign-operator-assert-membership", MUT, "    assert op == b\"eq\"\n", "    assert op in (b\"eq\",)\n", None),
+    M("benign-http-vectors-built-in-loops", HTTP, HTTP_TW_ARG, "                tw_vectors,\n", None,
+      edits=[(HTTP, HTTP_TRY, http_tw_loop("d[\"size\"]"))]),
+    M("benign-http-read-vector-hoisted", HTTP, HTTP_RV_ARG, "                read_vector,\n", None,
+      edits=[(HTTP, HTTP_TRY, "        read_vector = [(d[\"offset\"], d[\"size\"]) for d in rtw_request[\"read-vector\"]]\n" + HTTP_TRY)]),
+    M("benign-http-iterate-share-numbers", HTTP, "for (k, v) in rtw_request[\"test-write-vectors\"].items()", "for k in twv", None,
+      edits=[(HTTP, HTTP_TRY, "        twv = rtw_request[\"test-write-vectors\"]\n" + HTTP_TRY),
+             (HTTP, "for d in v[\"test\"]", "for d in twv[k][\"test\"]"),
+             (HTTP, "for d in v[\"write\"]]", "for d in twv[k][\"write\"]]"),
+             (HTTP, "                        v[\"new-length\"],\n", "                        twv[k].get(\"new-length\"),\n")]),
+    M("benign-foolscap-keyword-arguments", SRV, "            secrets,\n            test_and_write_vectors,\n            read_vector,\n            renew_leases=True,\n        )",
+      "            secrets,\n            read_vector=read_vector,\n            test_and_write_vectors=test_and_write_vectors,\n            renew_leases=True,\n        )", None),
+    M("benign-http-chunk-named-result", HTTP, "                return self._storage_server.slot_readv(\n                    storage_index, [share_number], [(offset, length)]\n                )[share_number][0]\n",
+      "                reads = self._storage_server.slot_readv(\n                    storage_index, [share_number], [(offset, length)]\n                )\n                return reads[share_number][0]\n", None),
+    M("benign-http-adapter-explicit-loop", SC,
+      "            client_test_vectors = [\n"
+      "                TestVector(offset=offset, size=size, specimen=specimen)\n"
+      "                for (offset, size, specimen) in test_vector\n            ]\n",
+      "            client_test_vectors = []\n            for tv in test_vector:\n"
+      "                client_test_vectors.append(TestVector(tv[0], tv[1], specimen=tv[2]))\n", None),
+    M("benign-foolscap-adapter-loop-over-keys", SC,
+      "            key: (\n                [(start, length, b\"eq\", data) for (start, length, data) in value[0]],\n"
+      "                value[1],\n                value[2],\n            ) for (key, value) in tw_vectors.items()\n",
+      "            shnum: (\n                [(tv[0], tv[1], b\"eq\", tv[2]) for tv in tw_vectors[shnum][0]],\n"
+      "                tw_vectors[shnum][1],\n                tw_vectors[shnum][2],\n            ) for shnum in tw_vectors\n", None),
+    M("benign-http-adapter-positional-fields", SC, "WriteVector(offset=offset, data=data) for (offset, data) in data_vector\n",
+      "WriteVector(wv[0], wv[1]) for wv in data_vector\n", None),
+    M("benign-http-client-body-by-loop", HC,
+      "        message = {\n            \"test-write-vectors\": {\n                share_number: twv.asdict()\n"
+      "                for (share_number, twv) in testwrite_vectors.items()\n            },\n",
+      "        per_share = {}\n        for share_number in testwrite_vectors:\n"
+      "            per_share[share_number] = testwrite_vectors[share_number].asdict()\n"
+      "        message = {\n            \"test-write-vectors\": per_share,\n", None),
     # ---- vanished anchor
     M("vanish-write-share-data", MUT, "    def _write_share_data(self, f, offset, data):", "    def _write_share_dataX(self, f, offset, data):",
       "ANALYSIS-ERROR"),
+    M("vanish-foolscap-readv", SRV, "    def remote_slot_readv(self, storage_index, shares, readv):", "    def remote_slot_readvX(self, storage_index, shares, readv):",
+      "ANALYSIS-ERROR"),
+    M("vanish-http-client-asdict", HC, "    def asdict(self) -> dict:", "    def as_dict(self) -> dict:", "ANALYSIS-ERROR"),
+    M("undecided-http-vectors-from-helper", HTTP, HTTP_TW_ARG, "                self._tw_vectors(rtw_request),\n", "ANALYSIS-ERROR",
+      note="a helper the evaluator does not follow is reported as undecided, never as a pass"),
 ]
